@@ -346,57 +346,7 @@ type CliCase struct {
 }
 
 // tipFile lays the names out as the case asks.
-func (c CliCase) tipFile() string {
-	switch c.Layout {
-	case "commas":
-		return strings.Join(c.Names, ",") + "\n"
-	case "long":
-		if len(c.Names) == 0 {
-			return "\n"
-		}
-		k := c.Straddle % len(c.Names)
-		target := c.Names[k]
-		var b strings.Builder
-		for i, n := range c.Names {
-			if i != k {
-				b.WriteString(n + ",")
-			}
-		}
-		// the target starts 1..len-1 bytes before the boundary (a one-byte name ends on it)
-		before := len(target) - 1
-		if before < 1 {
-			before = 1
-		}
-		start := c.Boundary - 1 - (c.Straddle/7)%before
-		for i := 0; b.Len() < start; i++ {
-			pad := fmt.Sprintf("zzpad%d,", i)
-			if rest := start - b.Len(); rest < len(pad)+2 {
-				pad = strings.Repeat("_", rest-1) + "," // never a tip name
-			}
-			b.WriteString(pad)
-		}
-		b.WriteString(target + ",zzpadlast\n")
-		return b.String()
-	}
-	if c.Layout == "exact" {
-		// one line without end of line whose length is exactly Boundary bytes (names, then names
-		// that are in no tree)
-		text := strings.Join(c.Names, ",")
-		for i := 0; len(text) < c.Boundary; i++ {
-			pad := fmt.Sprintf(",zzpad%d", i)
-			if rest := c.Boundary - len(text); rest < len(pad)+3 {
-				pad = "," + strings.Repeat("_", rest-1)
-			}
-			text += pad
-		}
-		return text
-	}
-	text := ""
-	for _, n := range c.Names {
-		text += n + "\n"
-	}
-	return text
-}
+func (c CliCase) tipFile() string { return cli.TipFile(c.Names, c.Layout, c.Boundary, c.Straddle) }
 
 // randomK: the number of tips `--random` samples, such that at least 3 tips remain in every tree
 // of the stream (which all have at least as many tips as the first one).
